@@ -87,6 +87,10 @@ def generate(seed, tier, k):
         doc["bc"] = {"case": "custom", "list": [{"name": "fix", "fx": "min", "skip": [False] + [r.random() < 0.5 for _ in range(dim - 1)], "value": 0.0}, {"name": "fix2", "fy": "max", "skip": [True, False] + ([True] if dim == 3 else []), "value": 0.0}]}
     else:
         doc["bc"] = {"case": "custom", "list": [{"name": "fix", "points": {"axis": 0, "at": "min", "first": 3}, "value": 0.0}]}
+    if not mixed and not mesh.get("extra_point") and gen.kpick(seed, "orphan-point", 5) == 0:
+        # a point that belongs to no cell (left-over of a removed part): its unknowns are taken out of
+        # the free unknowns - with and without boundaries
+        mesh["orphan_point"] = [round(c_ * f_, 4) for c_, f_ in zip(mesh["b"], (0.37, 0.41, 0.53))]
     if mixed and bc in ("partial", "clamp") and gen.kpick(seed, "dual-boundary", 2) == 0:
         # a support on a dual field as well (the pressure of one cell held at zero); the world puts
         # it at a seed-derived place of the boundary dictionary (first / between / last)
@@ -329,6 +333,10 @@ def run(doc, log):
                     continue
                 if origin(e) == "harness":
                     raise
+                # whatever the eigen-solver made of it: the free unknowns of the analysis are set before
+                got1 = getattr(job, "dof1", None)
+                if got1 is not None and not np.array_equal(np.sort(np.asarray(got1)), dof1):
+                    raise Violation(PROP, "operator-handed-over", f"free unknowns of the analysis ({len(got1)}) differ from the unknowns not selected by any boundary and not belonging to a point without cells ({len(dof1)}); evaluate raised {type(e).__name__}: {e}", site="FreeVibration.dof1")
                 if isinstance(e, RuntimeError) and "singular" in str(e).lower():
                     raise Discard("singular-shift")
                 from scipy.sparse.linalg import ArpackError
